@@ -114,13 +114,15 @@ def printUnit (u : Unit) : Str :=
   u.flatMap fun (sec, es) =>
     '[' :: sec ++ ']' :: '\n' :: (es.flatMap fun (k, v) => k ++ '=' :: v ++ ['\n']) ++ ['\n']
 
+/-- `write_to`: the pieces handed to the writer, one per `writeln!` -/
+def writeChunks (u : Unit) : List Str :=
+  u.flatMap fun (sec, es) =>
+    ('[' :: sec ++ [']', '\n']) :: (es.map fun (k, v) => k ++ '=' :: v ++ ['\n']) ++ [['\n']]
+
 def testEnv : Env := { keyChar := fun c => c.isAlphanum || c == '-', validRaw := fun _ => true }
 def showU (r : Except Err Unit) : String := match r with
   | .ok u => toString (u.map fun (s, es) => (String.ofList s, es.map fun (k, v) => (String.ofList k, String.ofList v)))
   | .error e => "error " ++ repr e |>.pretty
 
-#eval showU (parse testEnv "[Section A]\nKeyOne=value 1\n# c\nKeyTwo = value 2 \\\n   cont\\\n#x\n;y\nmore  \n[B]\n[Section A]\nK=a \\\n[b]\nX=1\n".toList)
-#eval showU (parse testEnv (printUnit [("A".toList, [("K".toList, "v \\n x".toList), ("".toList, "".toList)]), ("B".toList, [])]))
-#eval String.ofList (printUnit [("A".toList, [("K".toList, "v \\n x".toList), ("".toList, "".toList)]), ("B".toList, [])])
 
 end Parse
